@@ -53,6 +53,9 @@ type Case struct {
 	// EarlierSize (with Earlier): the earlier use drew into a rectangle of this size (one side
 	// may equal the case's), so the Renderer was re-targeted in between.
 	EarlierSize [2]int `json:"earlier_size,omitempty"`
+	// Idle (with Earlier): between the earlier arc and this one the Renderer is Reset and
+	// re-targeted this many times in all (graphics without arcs, other cells of a sheet).
+	Idle int `json:"idle,omitempty"`
 	// Prelude: the graphic has an earlier path with an arc of another rotation and a zero-radius arc
 	// of this rotation.
 	Prelude bool `json:"prelude,omitempty"`
@@ -64,6 +67,10 @@ type Case struct {
 	// whose numbers are all in the 4-byte form (every value of the case is a 30-bit float then;
 	// rotations outside [0,1] are legal in a file).
 	ViaBytes bool    `json:"via_bytes,omitempty"`
+	// Lead: the path starts here and reaches Start by a line, so the arc is not the first segment
+	// of its sub-path (the point may lie a fraction of a pixel from where the arc ends: a shape
+	// that an arc nearly, but not exactly, closes).
+	Lead *[2]ops.F32 `json:"lead,omitempty"`
 	Want     *Expect `json:"want,omitempty"` // constructive expectation; nil => independent F.6.5
 }
 
@@ -186,6 +193,13 @@ func checkArc(c Case) error {
 			earlierEnd = [2]float32{rr.Calls[n-1].F[4], rr.Calls[n-1].F[5]}
 		}
 		z.ClosePathEndPath()
+		for i := 0; i < c.Idle; i++ {
+			if i%2 == 0 {
+				z.Reset(ivg.ViewBox{MinX: 0, MinY: 0, MaxX: float32(24 + i%5), MaxY: 24}, ivg.DefaultPalette)
+			} else {
+				z.SetRasterizer(rr, image.Rect(0, 0, 10+i%7, 12))
+			}
+		}
 		rr.Calls = rr.Calls[:0]
 	}
 	z.SetRasterizer(rr, rect)
@@ -214,7 +228,12 @@ func checkArc(c Case) error {
 			z.ClosePathEndPath()
 			rr.Calls = rr.Calls[:0]
 		}
-		z.StartPath(0, float32(c.Start[0]), float32(c.Start[1]))
+		if c.Lead != nil {
+			z.StartPath(0, float32(c.Lead[0]), float32(c.Lead[1]))
+			z.AbsLineTo(float32(c.Start[0]), float32(c.Start[1]))
+		} else {
+			z.StartPath(0, float32(c.Start[0]), float32(c.Start[1]))
+		}
 		if n := len(rr.Calls); c.Earlier != [2]int{} && n > 0 && rr.Calls[n-1].K == rast.MoveTo && rr.Calls[n-1].F[0] == earlierEnd[0] && rr.Calls[n-1].F[1] == earlierEnd[1] {
 			earlierCoincides++
 		}
@@ -230,6 +249,12 @@ func checkArc(c Case) error {
 		return harness.Violatef("c06/call-sequence", "unexpected rasteriser log around the arc: %v", calls)
 	}
 	arc := calls[2 : len(calls)-2]
+	if c.Lead != nil && !c.ViaBytes {
+		if len(calls) < 5 || calls[2].K != rast.LineTo {
+			return harness.Violatef("c06/call-sequence", "unexpected rasteriser log around the arc (line, then arc): %v", calls)
+		}
+		arc = calls[3 : len(calls)-2]
+	}
 
 	// the endpoint in viewBox space
 	x1, y1 := float64(c.Start[0]), float64(c.Start[1])
@@ -640,6 +665,12 @@ func TestArcs(t *testing.T) {
 			case 2:
 				c.EarlierSize = [2]int{rapid.IntRange(8, 600).Draw(t, "ew"), rapid.IntRange(8, 600).Draw(t, "eh")}
 			}
+			switch rapid.IntRange(0, 5).Draw(t, "idle") {
+			case 0:
+				c.Idle = rapid.IntRange(1, 20).Draw(t, "idle.few")
+			case 1: // around the counts an 8- or 9-bit counter wraps at (the case itself adds two)
+				c.Idle = rapid.SampledFrom([]int{126, 254, 510}).Draw(t, "idle.wrap") + rapid.IntRange(-3, 3).Draw(t, "idle.d")
+			}
 		}
 		if rapid.IntRange(0, 4).Draw(t, "viabytes") == 0 {
 			c.ViaBytes = true
@@ -653,7 +684,26 @@ func TestArcs(t *testing.T) {
 		}
 		c.Prelude = rapid.IntRange(0, 4).Draw(t, "prelude") == 0
 		c.PreludeRel = c.Prelude && rapid.Bool().Draw(t, "preluderel")
+		leadNear := false
+		if !c.ViaBytes && rapid.IntRange(0, 2).Draw(t, "lead") == 0 {
+			ex, ey := float64(c.To[0]), float64(c.To[1])
+			if c.Rel {
+				ex, ey = ex+float64(c.Start[0]), ey+float64(c.Start[1])
+			}
+			sx := float64(c.Rect[2]) / (float64(c.ViewBox[2]) - float64(c.ViewBox[0]))
+			sy := float64(c.Rect[3]) / (float64(c.ViewBox[3]) - float64(c.ViewBox[1]))
+			d := rapid.SampledFrom([]float64{0, 1e-3, 0.01, 0.03, 0.06, 0.1, 0.2, 0.4, 1, 30}).Draw(t, "lead.px")
+			a := rapid.Float64Range(0, 2*math.Pi).Draw(t, "lead.dir")
+			c.Lead = &[2]ops.F32{ops.F32(float32(ex + d*math.Cos(a)/sx)), ops.F32(float32(ey + d*math.Sin(a)/sy))}
+			leadNear = d < 1
+		}
 		nt, labels := classify(c)
+		if c.Lead != nil {
+			labels = append(labels, "arc-is-not-the-first-segment-of-its-sub-path")
+			if leadNear {
+				labels = append(labels, "arc-ends-within-a-pixel-of-the-sub-path-start")
+			}
+		}
 		if c.Prelude {
 			labels = append(labels, "earlier-path-with-another-rotation-then-a-zero-radius-arc-of-this-one")
 		}
@@ -677,6 +727,9 @@ func TestArcs(t *testing.T) {
 			if c.Rot < 0 || c.Rot > 1 {
 				labels = append(labels, "file-with-a-rotation-outside-[0,1]")
 			}
+		}
+		if c.Idle > 100 {
+			labels = append(labels, "renderer-reset-and-re-targeted-125-513-times-since-its-last-arc")
 		}
 		if c.Earlier != [2]int{} {
 			labels = append(labels, "renderer-drew-the-reverse-arc-in-a-shifted-viewbox-before")
